@@ -324,7 +324,8 @@ func c09(c *core.Ctx) {
 				// the code has been logged meanwhile, the way values are logged (fmt verbs find any Stringer / error / Formatter
 				// the type has; an attribute holding it is formatted too): which codes have a default reason is not changed by that
 				ec := stun.ErrorCode(code)
-				_ = fmt.Sprintf("%v|%s|%d|%+v|%q", ec, ec, ec, ec, ec)
+				_ = fmt.Sprintf("%v|%d|%+v", ec, ec, ec)
+				_ = fmt.Sprintln(ec, []stun.ErrorCode{ec})
 				_ = fmt.Sprint(stun.ErrorCodeAttribute{Code: ec}, &stun.ErrorCodeAttribute{Code: ec, Reason: []byte("logged")})
 				if st, ok := interface{}(ec).(fmt.Stringer); ok {
 					_ = st.String()
